@@ -38,7 +38,7 @@ def abstraction(facts, b, with_closures=True, _seen=None):
     if b is None or b.path in _seen:
         return out
     _seen.add(b.path)
-    for bb, t in b.calls():
+    for bb, t in b.real_calls():
         c = t["callee"]
         if "path" not in c:
             continue
@@ -50,7 +50,7 @@ def abstraction(facts, b, with_closures=True, _seen=None):
         for bid, blk in b.blocks.items():
             for s in blk["stmts"]:
                 rv = s["rv"]
-                if rv["k"] == "aggregate" and "closure" in rv:
+                if rv["k"] == "aggregate" and "closure" in rv and rv["closure"] not in getattr(b, "inlined", ()):
                     for cb in facts.by_path.get(rv["closure"], []):
                         out += abstraction(facts, cb, True, _seen)
     return out
